@@ -11,7 +11,9 @@
 (*              loop will fire that timer late, startcb = slot to stop when this show starts,       *)
 (*              repl = replaced under its show_player key, base/acc = history for OnSchedule,       *)
 (*              hp/hs/hc = how often played / stopped / completed were posted (saturating at 2)     *)
-(*   lights[x]  set of stack entries [key = slot (the show context), prio, col, st = start_time]    *)
+(*              zomb = the show completed by itself and show_player still holds the instance       *)
+(*   lights[x]  set of stack entries [key = slot (the show context), prio, col, st = start_time,    *)
+(*              until = end of its fade (0: none), out = it is the fade-out left by a removal]      *)
 (*   coil       set of slots (contexts) that hold the coil enabled                                  *)
 (*   out[sh]    what the last action made slot sh do: steps <<k, tExec, tNominal>> and events       *)
 EXTENDS Integers, Sequences, FiniteSets, TLC
@@ -20,7 +22,8 @@ CONSTANTS Configs,      \* set of records [id, sh |-> << slot configs >>]
           Lates,        \* lateness values the environment may pick for a pending show timer
           AdvN, BackN,  \* arguments of advance(steps=n) / step_back(steps=n)
           Speeds,       \* arguments of update(speed=)
-          NL,           \* number of lights
+          NL,           \* number of lights (light 2 has the default fade cfg.fade, in units)
+          OddOps,       \* also issue requests to shows that are over, and resume to shows that are not paused
           Deviations    \* named code-as-is deviations from the statement (empty: the statement)
 VARIABLES cfg, now, st, lights, coil, out, nops, act
 vars == <<cfg, now, st, lights, coil, out, nops, act>>
@@ -35,6 +38,7 @@ Exact(sh, sp) == \A k \in 1..NSteps(sh) : C(sh).durs[k] > 0 => (C(sh).durs[k] * 
 \* next point of the sync grid strictly after t (RunningShow._start_play)
 SyncT(t, s) == ((t \div s) + 1) * s
 Inc(n) == IF n >= 2 THEN 2 ELSE n + 1
+Fade(x) == IF x = 2 THEN cfg.fade ELSE 0
 
 EmitEv(w, sh, evs) == [w EXCEPT !.out[sh].ev = @ \o evs]
 EmitStep(w, sh, k, t, nom) == [w EXCEPT !.out[sh].steps = Append(@, <<k, t, nom>>)]
@@ -42,14 +46,20 @@ Count(q, x) == Cardinality({i \in DOMAIN q : q[i] = x})
 
 \* RunningShow.stop: idempotent; an unused start callback is called; contexts of all players are cleared
 \* (light entries by key removed, enabled coils disabled); the stop callback (queue.clear) runs; stopped is posted
-RECURSIVE StopF(_, _)
-StopF(w, sh) ==
+RECURSIVE StopF(_, _, _)
+StopF(w, sh, t) ==
     LET s == w.st[sh] IN
     IF s.ph \notin {"wait", "run"} THEN w
     ELSE LET w1 == [w EXCEPT !.st[sh].ph = "done", !.st[sh].armed = FALSE, !.st[sh].late = 0,
                              !.st[sh].startcb = 0, !.st[sh].hs = Inc(@)]
-             w2 == IF s.startcb # 0 THEN StopF(w1, s.startcb) ELSE w1
-             w3 == [w2 EXCEPT !.lights = [x \in Lights |-> {e \in w2.lights[x] : e.key # sh}],
+             w2 == IF s.startcb # 0 THEN StopF(w1, s.startcb, t) ELSE w1
+             \* light_player.clear_context -> remove_from_stack_by_key with the light's default fade: the entry is
+             \* removed at once, or turned into a fade-out entry that a delay removes when the fade has elapsed
+             w3 == [w2 EXCEPT !.lights = [x \in Lights |->
+                                 {e \in w2.lights[x] : e.key # sh \/ e.out} \cup
+                                 (IF Fade(x) = 0 THEN {}
+                                  ELSE {[e EXCEPT !.col = -2, !.st = t, !.until = t + Fade(x), !.out = TRUE] :
+                                            e \in {f \in w2.lights[x] : f.key = sh /\ ~f.out}})],
                               !.coil = IF sh \in w2.coil /\ "CoilSharedDisable" \in Deviations THEN {} ELSE @ \ {sh}]
          IN EmitEv(w3, sh, (IF C(sh).blockq THEN <<"qdone">> ELSE <<>>) \o <<"stopped">>)
 
@@ -58,7 +68,8 @@ StepEffects(w, sh, k, nom) ==
     LET x == C(sh).lt[k]
         w1 == IF x = 0 THEN w
               ELSE [w EXCEPT !.lights[x] = {e \in @ : e.key # sh} \cup
-                                 {[key |-> sh, prio |-> C(sh).prio, col |-> C(sh).col[k], st |-> nom]}]
+                                 {[key |-> sh, prio |-> C(sh).prio, col |-> C(sh).col[k], st |-> nom,
+                                   until |-> IF Fade(x) > 0 THEN nom + Fade(x) ELSE 0, out |-> FALSE]}]
         cv == C(sh).coil[k]
     IN IF cv = 1 THEN [w1 EXCEPT !.coil = @ \cup {sh}] ELSE w1
 
@@ -69,7 +80,7 @@ RunNext(w, sh, t, evs) ==
         i0 == IF s.idx < 0 THEN s.idx % N ELSE s.idx
         wrap == i0 >= N
     IN IF wrap /\ s.loops = 0
-       THEN EmitEv([StopF(w, sh) EXCEPT !.st[sh].hc = Inc(@)], sh, evs \o <<"completed">>)
+       THEN EmitEv([StopF(w, sh, t) EXCEPT !.st[sh].hc = Inc(@), !.st[sh].zomb = ~s.repl], sh, evs \o <<"completed">>)
        ELSE LET i == IF wrap THEN 0 ELSE i0
                 k == i + 1
                 lp == IF wrap /\ s.loops > 0 THEN s.loops - 1 ELSE s.loops
@@ -86,13 +97,13 @@ RunNext(w, sh, t, evs) ==
 \* RunningShow._start_now
 StartNowF(w, sh, t) ==
     LET s == w.st[sh]
-        w1 == IF s.startcb # 0 THEN StopF(w, s.startcb) ELSE w
+        w1 == IF s.startcb # 0 THEN StopF(w, s.startcb, t) ELSE w
         w2 == [w1 EXCEPT !.st[sh].startcb = 0, !.st[sh].ph = "run", !.st[sh].armed = FALSE, !.st[sh].late = 0,
                          !.st[sh].hp = Inc(@)]
     IN RunNext(w2, sh, t, <<"played">>)
 
 Fresh == [ph |-> "none", idx |-> 0, cur |-> 0, loops |-> 0, sp |-> <<1, 1>>, manual |-> FALSE, nextT |-> 0,
-          armed |-> FALSE, late |-> 0, startcb |-> 0, repl |-> FALSE, base |-> 0, acc |-> 0,
+          armed |-> FALSE, late |-> 0, startcb |-> 0, repl |-> FALSE, zomb |-> FALSE, base |-> 0, acc |-> 0,
           hp |-> 0, hs |-> 0, hc |-> 0]
 
 \* show_player._play -> replace_or_advance_show -> play_with_config -> RunningShow.__init__/_start_play
@@ -102,9 +113,11 @@ PlayF(w, sh, t) ==
         P == {x \in Slots \ {sh} : C(x).key = c.key /\ w.st[x].ph \in {"wait", "run"} /\ ~w.st[x].repl}
         p == IF P = {} THEN 0 ELSE CHOOSE x \in P : TRUE
         idx0 == IF c.start > 0 THEN c.start - 1 ELSE IF c.start < 0 THEN c.start % N ELSE 0
-        wA == IF p # 0 THEN [w EXCEPT !.st[p].repl = TRUE] ELSE w
+        \* the key now belongs to the new instance
+        wA == [w EXCEPT !.st = [x \in Slots |-> IF x # sh /\ C(x).key = c.key
+                                                THEN [w.st[x] EXCEPT !.repl = (x = p) \/ @, !.zomb = FALSE] ELSE w.st[x]]]
         \* without sync the replaced show is stopped at once, with sync when the new show starts
-        wB == IF p # 0 /\ c.sync = 0 THEN StopF(wA, p) ELSE wA
+        wB == IF p # 0 /\ c.sync = 0 THEN StopF(wA, p, t) ELSE wA
         t0 == IF c.sync > 0 THEN SyncT(t, c.sync) ELSE t
         s1 == [Fresh EXCEPT !.ph = IF c.sync > 0 THEN "wait" ELSE "run", !.idx = idx0, !.loops = c.loops,
                             !.sp = c.sp, !.manual = c.manual, !.nextT = t0, !.armed = c.sync > 0,
@@ -117,6 +130,8 @@ Fire(w, sh, t) ==
     IF w.st[sh].ph = "wait" THEN StartNowF(w, sh, t)
     ELSE RunNext([w EXCEPT !.st[sh].armed = FALSE, !.st[sh].late = 0], sh, t, <<>>)
 Due(w, sh, t) == w.st[sh].armed /\ w.st[sh].nextT + w.st[sh].late <= t
+\* the delays that end fade-outs
+Expire(w, t) == [w EXCEPT !.lights = [x \in Lights |-> {e \in w.lights[x] : ~(e.out /\ e.until <= t)}]]
 \* all timers due by t run (a show that is behind catches up at once); shows in either order
 RECURSIVE FireSet(_, _)
 FireSet(w, t) == LET D == {sh \in Slots : Due(w, sh, t)}
@@ -135,7 +150,7 @@ Rebase(w, sh) == [w EXCEPT !.st[sh].armed = FALSE, !.st[sh].late = 0, !.st[sh].n
                            !.st[sh].base = now, !.st[sh].acc = 0]
 
 Play(sh) == st[sh].ph = "none" /\ Op(PlayF(W, sh, now), [op |-> "play", sh |-> sh])
-Stop(sh) == st[sh].ph \in {"wait", "run"} /\ ~st[sh].repl /\ Op(StopF(W, sh), [op |-> "stop", sh |-> sh])
+Stop(sh) == st[sh].ph \in {"wait", "run"} /\ ~st[sh].repl /\ Op(StopF(W, sh, now), [op |-> "stop", sh |-> sh])
 \* pause only removes the pending timer; resume runs the next step at once and re-bases the schedule
 Pause(sh) == Live(sh) /\ st[sh].armed
              /\ Op([W EXCEPT !.st[sh].armed = FALSE, !.st[sh].late = 0], [op |-> "pause", sh |-> sh])
@@ -156,9 +171,19 @@ Update(sh, sp) == Live(sh) /\ sp # st[sh].sp /\ Exact(sh, sp)
 \* environment: the loop will run the pending timer of slot sh d units late
 Late(sh, d) == st[sh].armed /\ st[sh].late = 0
                /\ Op([W EXCEPT !.st[sh].late = d], [op |-> "late", sh |-> sh, d |-> d])
+\* ---- requests the statement gives no effect to (OddOps)
+\* a request to a show that has completed (show_player still holds the instance under its key) does nothing;
+\* stop then only forgets the instance
+Over(sh) == OddOps /\ st[sh].ph = "done" /\ st[sh].zomb
+ZStop(sh) == Over(sh) /\ Op([W EXCEPT !.st[sh].zomb = FALSE], [op |-> "stop", sh |-> sh])
+ZCtl(sh, a) == Over(sh) /\ Op(W, a)
+\* resume to a show that is not paused: either nothing, or on to the next step at once - but one schedule only
+ResumeArmed(sh) == /\ OddOps /\ Live(sh) /\ st[sh].armed
+                   /\ \/ Op(W, [op |-> "resume", sh |-> sh])
+                      \/ Op(RunNext(Rebase(W, sh), sh, now, <<>>), [op |-> "resume", sh |-> sh])
 \* one unit of time passes; every show timer due by then runs (StepDue)
 Adv == /\ now < MaxTime /\ now' = now + 1
-       /\ \E w \in FireSet(W, now + 1) : Commit(w, [op |-> "adv"])
+       /\ \E w \in FireSet(Expire(W, now + 1), now + 1) : Commit(w, [op |-> "adv"])
        /\ UNCHANGED <<cfg, nops>>
 Next == \/ Adv
         \/ \E sh \in Slots : \/ Play(sh) \/ Stop(sh) \/ Pause(sh) \/ Resume(sh)
@@ -167,11 +192,17 @@ Next == \/ Adv
                              \/ \E n \in BackN : StepBack(sh, n)
                              \/ \E sp \in Speeds : Update(sh, sp)
                              \/ \E d \in Lates : Late(sh, d)
+                             \/ ZStop(sh) \/ ResumeArmed(sh)
+                             \/ ZCtl(sh, [op |-> "pause", sh |-> sh]) \/ ZCtl(sh, [op |-> "resume", sh |-> sh])
+                             \/ \E n \in AdvN : ZCtl(sh, [op |-> "advance", sh |-> sh, n |-> n])
+                             \/ \E n \in BackN : ZCtl(sh, [op |-> "step_back", sh |-> sh, n |-> n])
 Spec == Init /\ [][Next]_vars
 
 \* ------------------------------------------------------------------ the statement of C17
-Top(x) == IF lights[x] = {} THEN 0
-          ELSE (CHOOSE e \in lights[x] : \A f \in lights[x] : f.prio <= e.prio).col
+Solid(x) == {e \in lights[x] : ~e.out}
+Top(x) == IF Solid(x) = {} THEN 0
+          ELSE (CHOOSE e \in Solid(x) : \A f \in Solid(x) : f.prio <= e.prio).col
+AtRest(x) == \A e \in lights[x] : e.until <= now
 Owned(sh) == {x \in Lights : \E e \in lights[x] : e.key = sh}
 Sched(s) == IF s.armed THEN s.nextT ELSE -1
 TypeOK == /\ now \in 0..MaxTime
@@ -212,6 +243,8 @@ StartStep == [][\A sh \in Slots : (st[sh].hp = 0 /\ st'[sh].hp = 1 /\ out'[sh].s
                        /\ out'[sh].steps[1][3] = (IF c.sync > 0 THEN st[sh].nextT ELSE now)]_vars
 PausedIsSilent == [][\A sh \in Slots : (act'.op = "adv" /\ ~st[sh].armed) => out'[sh].steps = <<>>]_vars
 \* CleanAfterStop: a stopped or completed show owns nothing, holds no coil, and has released its queue
-CleanAfterStop == \A sh \in Slots : (st[sh].ph = "done") => (Owned(sh) = {} /\ sh \notin coil)
+CleanAfterStop == \A sh \in Slots : (st[sh].ph = "done")
+                      => /\ \A x \in Lights : \A e \in lights[x] : e.key = sh => (e.out /\ e.until > now)
+                         /\ sh \notin coil
 QueueReleasedAtEnd == [][\A sh \in Slots : Count(out'[sh].ev, "qdone") = (IF C(sh).blockq /\ st[sh].ph # "done" /\ st'[sh].ph = "done" THEN 1 ELSE 0)]_vars
 =============================================================================
